@@ -197,8 +197,8 @@ class DecideInExpression(Contract):
     string or number, and - unless the backend allows wildcards in lists - NO argument contains a wildcard"""
     id = "C01.Backend.decide_convert_condition_as_in_expression"
     target = f"{CB}:Backend.decide_convert_condition_as_in_expression"
-    props = ("C01",)
-    cases = tuple((op, n, mixed) for op in ("ConditionOR", "ConditionAND") for n in (1, 2, 3) for mixed in ("same", "other_field", "non_fieldeq", "non_string", "cased"))
+    props = ("C01", "C05", "C18")
+    cases = tuple((op, n, mixed) for op in ("ConditionOR", "ConditionAND") for n in (1, 2, 3) for mixed in ("same", "other_field", "non_fieldeq", "non_string", "cased", "number"))
     assumed = ["1..3 arguments (unrolled); wildcard presence of each string value symbolic"]
 
     def args(self, I, case):
@@ -216,6 +216,8 @@ class DecideInExpression(Contract):
                     fld = "g"
                 elif mixed == "non_string":
                     val = SObj(Bool, {}, lazy=True)
+                elif mixed == "number":      # a number next to strings: still a plain value - and the strings' wildcards still count
+                    val = SObj(Num, {}, lazy=True)
                 elif mixed == "cased":       # a case-sensitive string does not have the (case-insensitive) match kind of the in-list
                     val = SObj(idx.lookup("sigma.types:SigmaCasedString"), {"contains_special": NativeFn("contains_special", lambda I2, a, k, w=w: w)}, lazy=True)
             a = SObj(cls(I, "ConditionFieldEqualsValueExpression"), {"field": fld, "value": val}, lazy=True)
@@ -229,8 +231,8 @@ class DecideInExpression(Contract):
         op, n, mixed = inp["case"]
         me = inp["self"]
         enabled = me.fields["convert_or_as_in"].t if op == "ConditionOR" else me.fields["convert_and_as_in"].t
-        uniform = mixed == "same" or (n == 1 and mixed == "other_field")
-        strs = inp["wild"] if mixed != "non_string" else inp["wild"][:-1]
+        uniform = mixed in ("same", "number") or (n == 1 and mixed == "other_field")
+        strs = inp["wild"] if mixed not in ("non_string", "number") else inp["wild"][:-1]
         no_wild = z3.Or(me.fields["in_expressions_allow_wildcards"].t, z3.Not(ops.mk_or([w.t for w in strs])))
         spec = z3.And(enabled, z3.BoolVal(uniform), no_wild)
         I.ctx.require(ops.mk_bool_term(ops.truth(I, r)) == spec, "in-list iff enabled, uniform single-field plain values, and (wildcards allowed or no value has one)")
@@ -281,14 +283,16 @@ class DetectionItemPostprocess(Contract):
     of what it negates and hangs under the item's parent (backends decide on negated templates by walking the parent chain)"""
     id = "C01.SigmaDetectionItem.postprocess"
     target = f"{DETM}:SigmaDetectionItem.postprocess"
-    props = ("C01", "C02", "C03")
-    cases = tuple((nv, fld, neg, link) for nv in (0, 1, 2, 3) for fld in (True, False) for neg in (False, True) for link in ("ConditionOR", "ConditionAND") if not (nv < 2 and link == "ConditionAND"))
-    assumed = ["values are abstract objects"]
+    props = ("C01", "C02", "C03", "C04")
+    cases = tuple((nv, fld, neg, link) for nv in (0, 1, 2, 3) for fld in (True, False) for neg in (False, True) for link in ("ConditionOR", "ConditionAND") if not (nv < 1 and link == "ConditionAND"))
+    assumed = ["values are abstract objects; the single value of an AND-linked item (|all) is an EXPANSION (base64offset / windash alternatives): it stays one value - its alternatives are alternatives, not the item's value list"]
 
     def args(self, I, case):
         nv, fld, neg, link = case
         idx = I.E.index
         vals = [SObj("Value", {}, ghost={"i": i}) for i in range(nv)]
+        if nv == 1 and link == "ConditionAND":
+            vals = [SObj(idx.lookup("sigma.types:SigmaExpansion"), {"values": [SObj("Value", {}), SObj("Value", {}), SObj("Value", {})]}, lazy=True)]
         field = I.fresh("field", "str") if fld else None
         me = SObj(idx.lookup(f"{DETM}:SigmaDetectionItem"), {"field": field, "value": vals, "negated": neg, "value_linking": ClassRef(idx.lookup(f"sigma.conditions:{link}")), "source": None, "parent": None}, lazy=True)
         parent = SObj("ParentDetection", {})
